@@ -145,6 +145,17 @@ class SignEnv:
             r = add_sign(self.of(n[1]), self.of(n[2]))
         elif k == "sub":
             r = add_sign(self.of(n[1]), NEG[self.of(n[2])])
+            if r == "any" and self.m is not None:
+                o = self.m.order
+                if n[1] in o.idx and n[2] in o.idx:
+                    if o.decide("Gt", n[1], n[2]) is True:
+                        r = "pos"
+                    elif o.decide("Lt", n[1], n[2]) is True:
+                        r = "neg"
+                    elif o.decide("Ge", n[1], n[2]) is True:
+                        r = "nonneg"
+                    elif o.decide("Le", n[1], n[2]) is True:
+                        r = "nonpos"
         elif k in ("mul", "div"):
             acc = {}
             self.factors(n, 1, acc)
